@@ -14,7 +14,7 @@ TECHNIQUE = ('property-based testing: exhaustive message grid + generated sizes/
 GRID_EXHAUSTIVE = True
 GRID_NOTE = ('grid over method x request trailers x 1xx x status x content-length relation x DATA pattern x '
              'END_STREAM placement x padding is enumerated completely; sizes and longer chunkings are sampled')
-RULE = ('grid: responses at a client (method GET/HEAD/POST x request trailers x preceding 1xx none/without/with '
+RULE = ('(generated cases also write the request list with upper-case / padded / text / one-shot-iterator spellings and let the server promise a GET or HEAD request on the stream before it answers) grid: responses at a client (method GET/HEAD/POST x request trailers x preceding 1xx none/without/with '
         'content-length x status 200/204/304/404 x content-length absent/0/=total/total-1/total+1/100 x DATA '
         'pattern ()/(0)/(5)/(5,0)/(2,3)/(0,5) x END_STREAM on HEADERS/DATA/trailers x padding) and requests at a '
         'server (GET/POST x the same body dimensions); every grid point is non-trivial; generated: random sizes '
@@ -54,8 +54,23 @@ def cl_value(cl, total):
     return {'absent': None, '0': 0, 'eq': total, 'minus1': total - 1, 'plus1': total + 1, '100': 100}[cl]
 
 
-def run_message(r, direction, method, reqtr, info, status, clv, pattern, end, pads, cfg=None, trailer_cl=None):
-    """pads: list of pad lengths (or None) per DATA frame."""
+def spell(req, spelling):
+    """The request list as an application may write it (the library lower-cases names and strips whitespace)."""
+    if spelling == 'upper-name':
+        return [(n.title() if n == b':method' else n, v) for n, v in req]
+    if spelling == 'spaces':
+        return [(b' ' + n, v + b' ') if n == b':method' else (n, b' ' + v) for n, v in req]
+    if spelling == 'text':
+        return [(n.decode('ascii'), v.decode('ascii')) for n, v in req]
+    if spelling == 'iterator':
+        return iter(list(req))
+    return req
+
+
+def run_message(r, direction, method, reqtr, info, status, clv, pattern, end, pads, cfg=None, trailer_cl=None,
+                spelling=None, push=None):
+    """pads: list of pad lengths (or None) per DATA frame.  spelling: how the client's request list is written.
+    push: method of a request the server promises on the stream before it answers (None: no promise)."""
     total = sum(pattern)
     client = direction == 'response'
     s = Solo(client, **(cfg or {}))
@@ -86,9 +101,19 @@ def run_message(r, direction, method, reqtr, info, status, clv, pattern, end, pa
         msg_headers.append((b'content-length', str(clv).encode()))
     ended = False
     if client:
-        o = s.call('send_headers', 1, req, end_stream=not reqtr)
+        o = s.call('send_headers', 1, spell(req, spelling), end_stream=not reqtr)
+        if not o.ok:
+            r.violate('C16:harness:request-refused:%s' % spelling, o.brief())
+            return
         if reqtr:
             s.call('send_headers', 1, [(b'x-t', b'1')], end_stream=True)
+        if push:
+            # a promised request is a message of its own: its method says nothing about the answer on this stream
+            preq = [(b':method', push.encode()), (b':scheme', b'https'), (b':authority', b'example.com'),
+                    (b':path', b'/pushed')]
+            if feed(wire.push_promise(1, 2, s.hblock(preq)), 'push-promise') is None:
+                r.violate('C16:push-promise-rejected', push)
+                return
         if info != 'none':
             ih = [(b':status', b'103')] + ([(b'content-length', b'5')] if info == 'with-cl' else [])
             if feed(wire.headers(1, s.hblock(ih)), 'informational') is None:
@@ -176,7 +201,15 @@ def run_case(data):
     if end == 'trailers' and ch.chance(64):
         trailer_cl = ch.pick([total, total + 1, 0, clv if clv is not None else 3])
         r.labels.add('content-length-in-trailers')
-    run_message(r, direction, method, reqtr, info, status, clv, pattern, end, pads, cfg, trailer_cl)
+    spelling = push = None
+    if direction == 'response':
+        spelling = ch.pick([None, None, None, 'upper-name', 'spaces', 'text', 'iterator'])
+        push = ch.pick([None, None, None, 'GET', 'HEAD'])
+        if spelling:
+            r.labels.add('request-spelled:' + spelling)
+        if push:
+            r.labels.add('promise-before-answer')
+    run_message(r, direction, method, reqtr, info, status, clv, pattern, end, pads, cfg, trailer_cl, spelling, push)
     r.nontrivial = clv is not None or method == 'HEAD' or status in ('204', '304')
     r.labels.add(direction)
     if any(p is not None for p in pads):
